@@ -6,12 +6,17 @@ SPEC = {
         "shims": {"stream": "internal/stream"},
         "runs": [{"args": ["-mode", "raw"], "corpus": "raw", "gomemlimit": "12GiB"}],
     },
+    # second harness package: the dispatcher half (HandlePacket on a fresh connection of a full server stack)
+    "extra_harness": [{"pkg": "c05d", "shims": {}, "runs": [{"args": [], "corpus": "disp"}]}],
     "strip_obs": r" alloc \d+",
     "skip_model_prefix": ["rawbig"],
     "rule": ("hostile byte streams fed to the real ReadPacket under recover + watchdog + TotalAlloc delta: every type byte, "
              "adversarial length fields, truncation of valid streams at every offset, structure-aware mutations, random "
-             "bytes, gzip members with extreme expansion ratios; non-trivial = stream longer than one byte; distinct = "
-             "distinct (stream prefix, length, chunking)"),
+             "bytes, gzip members with extreme expansion ratios (zero-filled and JSON-shaped); non-trivial = stream longer "
+             "than one byte; distinct = distinct (stream prefix, length, chunking). Dispatcher half: packets built exactly "
+             "as ReadPacket builds them handed to the real SessionManager.HandlePacket on a fresh connection of a full "
+             "server stack (all 256 type bytes x {no body, junk, handshake-/tunnel-open-shaped JSON, command packet}; every "
+             "command type x sample bodies; JSON mutations: wrong value types, huge numbers, deep nesting, truncation)"),
     "trusted_base": [
         "Lean 4.33 kernel; axioms propext, Classical.choice, Quot.sound only (audited per theorem on every run)",
         "extractor /verif/extract: MaxPacketBodySize and type predicates regenerated into Gen/*.lean",
@@ -21,6 +26,7 @@ SPEC = {
     "assumptions": [
         "gzip inflate and JSON decoding are parameters of the model (tables measured from the real libraries per case)",
         "allocation bound checked on the implementation: TotalAlloc delta <= (packets+1) * 8 * MaxPacketBodySize on one goroutine",
-        "session dispatcher part (HandlePacket on a fresh connection) is covered by the c05d harness run when present",
+        "dispatcher: the routing table of HandlePacket is translated from the source and proved total; what the handlers answer is not modelled (any error or reply is accepted, a panic/timeout/crash is a failing input)",
+        "a command-typed TransferPacket whose CommandPacket is nil makes handleCommandPacket dereference nil; ReadPacket never produces such a packet (the body is always JSON-decoded into a struct), so it is outside 'decodable packet' (observation, not a finding)",
     ],
 }
